@@ -268,6 +268,10 @@ pub struct SlaveCfg {
     /// RR, UE, RS ... and is alive all the same).
     #[serde(default)]
     pub fdl_status_code: u8,
+    /// Input data made of bytes that look like frame delimiters (0x10 0x68 0xA2 0xDC 0xE5 0x16):
+    /// after any loss of synchronisation the receivers find "telegrams" inside the payload.
+    #[serde(default)]
+    pub delimiter_payload: bool,
 }
 
 #[derive(Serialize, Deserialize, Clone, Debug)]
